@@ -1412,3 +1412,56 @@ func c19ReversedRanges(c *Ctx, rid string) {
 	r.Check(nGood > 0, rid, "a reversed range (lower bound above the upper bound) is recognised on the way from extractValidationConstraints", c.P.Pos(c.P.Decls[evc].Pos()),
 		"no function reached from extractValidationConstraints compares the published upper bound with the lower one: {gt: 10, lt: 5} (protovalidate: greater than 10 or less than 5) is published as exclusiveMinimum 10 with exclusiveMaximum 5, which no value satisfies")
 }
+
+// noBareFloatWidening — R06q (shares the concern of R19e/R19l). In the OpenAPI generator a float32 rule value is never
+// widened to float64 by a bare conversion on its way into a published keyword, const or enum member: float64(float32(0.1)) is
+// 0.10000000149011612, while the wire carries the field value as 0.1, which then fails the published const/enum/bound.
+// Accepted: the conversion as the argument of strconv.FormatFloat(…, 32) (the value's own shortest text) and inside a
+// float32→float64 helper (decided by R19l).
+func noBareFloatWidening(c *Ctx, rid string) {
+	r := c.R
+	pk := c.P.Pkg(pkgOpenAPI)
+	if pk == nil {
+		r.Unres(rid, pkgOpenAPI, "", "package not loaded")
+		return
+	}
+	info := pk.TypesInfo
+	n := 0
+	for _, nf := range sortedFuncNames(c.oaDecls(pkgOpenAPI)) {
+		decl := c.oaDecls(pkgOpenAPI)[nf.fn]
+		if decl == nil || decl.Body == nil {
+			continue
+		}
+		sig := nf.fn.Type().(*types.Signature)
+		if sig.Params().Len() == 1 && sig.Results().Len() == 1 && types.TypeString(sig.Params().At(0).Type(), nil) == "float32" && types.TypeString(sig.Results().At(0).Type(), nil) == "float64" {
+			continue
+		}
+		parents := parentMap(decl.Body)
+		ast.Inspect(decl.Body, func(nd ast.Node) bool {
+			call, ok := nd.(*ast.CallExpr)
+			if !ok || len(call.Args) != 1 {
+				return true
+			}
+			tv, ok := info.Types[call.Fun]
+			if !ok || !tv.IsType() || types.TypeString(tv.Type, nil) != "float64" {
+				return true
+			}
+			if at := info.TypeOf(call.Args[0]); at == nil || types.TypeString(at.Underlying(), nil) != "float32" {
+				return true
+			}
+			n++
+			okUse := false
+			if p, ok := parents[ast.Node(call)].(*ast.CallExpr); ok {
+				if cal := Callee(info, p); cal != nil && cal.Pkg() != nil && cal.Pkg().Path() == "strconv" && cal.Name() == "FormatFloat" && len(p.Args) == 4 {
+					if bv, ok := info.Types[p.Args[3]]; ok && bv.Value != nil && bv.Value.ExactString() == "32" {
+						okUse = true
+					}
+				}
+			}
+			r.Check(okUse, rid, fmt.Sprintf("%s: float32 value %s is not widened by a bare conversion", nf.name, types.ExprString(call.Args[0])), c.P.Pos(call.Pos()),
+				fmt.Sprintf("%s converts the float32 value %s with float64(…) outside strconv.FormatFloat(…, 32): the published const / enum member / bound is the exact widening (0.1 → 0.10000000149011612), which the JSON form of the field value (0.1) does not equal, so bodies the rules accept fail the schema", nf.name, types.ExprString(call.Args[0])))
+			return true
+		})
+	}
+	r.OKd(rid, "float32 → float64 conversions of the OpenAPI generator inspected", "", map[string]any{"conversions_outside_helpers": n})
+}
